@@ -64,18 +64,25 @@ class Scenario:
     pass
 
 
-def make_scenario(ctx, rnd, sid, model, ngroup, gauss, clip=False, R=1):
-    """write the sample files of one scenario and build its config dict"""
+def make_scenario(ctx, rnd, sid, model, ngroup, gauss, clip=False, R=1, opts=None):
+    """write the sample files of one scenario and build its config dict.
+    opts: scalar_bg_frac - cfit family: ONE bg_frac for all data sets (a scalar in the config, not a list);
+          regroup        - the second phase hands the same ConfigLoader one data set MORE than the first phase did
+                           (all per-set configuration entries are scalars then, so any number of sets is legal)"""
+    opts = opts or {}
     d = os.path.join(ctx.dir, "s%03d" % sid)
     os.makedirs(d, exist_ok=True)
     s = Scenario()
     s.sid, s.model, s.ngroup, s.gauss, s.dir, s.clip = sid, model, ngroup, gauss, d, clip
     s.R = R
+    s.opts = opts
     cfit = model in CFIT_LIKE
     data = {"dat_order": ["B", "C", "D"], "data": [], "phsp": []}
     s.wkind = rnd.choice(["unit", "pos", "mixed", "mixed"])
     s.vkind = rnd.choice(["unit", "pos"])
     s.bgkind = "none" if cfit else rnd.choice(["none", "const", "file", "noweight"])
+    if opts.get("regroup") and s.bgkind == "file":  # a list of per-set weight files fixes the number of sets
+        s.bgkind = "const"
     s.nd, s.nb, s.nm = [], [], []
     dw, vw, bgs, bgw = [], [], [], []
     extra = {k: [] for k in ("data_bg_value", "phsp_bg_value", "data_eff_value", "phsp_eff_value")}
@@ -121,8 +128,12 @@ def make_scenario(ctx, rnd, sid, model, ngroup, gauss, clip=False, R=1):
         data["bg_weight"] = bgw if s.bgkind == "file" else s.wb
     if cfit:
         data.update(extra)
-        data["bg_frac"] = [round(rnd.uniform(0.05, 0.4), 3) for _ in range(ngroup)]
-        s.fb = data["bg_frac"]
+        if opts.get("scalar_bg_frac") or opts.get("regroup"):
+            data["bg_frac"] = round(rnd.uniform(0.05, 0.4), 3)
+            s.fb = [data["bg_frac"]] * (ngroup + 1)
+        else:
+            data["bg_frac"] = [round(rnd.uniform(0.05, 0.4), 3) for _ in range(ngroup)]
+            s.fb = data["bg_frac"]
     if model in ("cfit", "cfit_cached", "cfit_extended"):
         data["model"] = "cfit"
         if model == "cfit_cached":
@@ -235,7 +246,6 @@ def capture_part(model_name, fcn, amp, raw, x):
     if model_name in CFIT_LIKE:
         p.e = arr(fcn.data.get("eff_value", np.ones(n))); p.b = arr(fcn.data.get("bg_value", np.ones(n)))
         p.eg = arr(fcn.mcdata.get("eff_value", np.ones(m))); p.bm = arr(fcn.mcdata.get("bg_value", np.ones(m)))
-        p.errv = arr(fcn.data.get("err_value", np.ones(n)))
     p.call = float(fcn.get_nll(x))
     p.grad_error = None
     try:
@@ -266,7 +276,7 @@ def doc_value(model_name, p, fb=None):
         return -a * ((w * np.log(f)).sum() - w.sum() * math.log((v * g).sum() / v.sum()))
     if model_name == "extended":
         return -a * ((w * np.log(f)).sum() - w.sum() * ((v * g).sum() / v.sum()))
-    e = np.array(p.e) if model_name != "simple_cfit" else np.array(p.errv)
+    e = np.array(p.e)
     isig = (v * np.array(p.eg) * g).sum() / v.sum(); ibg = (v * np.array(p.bm)).sum() / v.sum()
     pr = (1 - fb) * e * f / isig + fb * np.array(p.b) / ibg
     r = -a * (w * np.log(pr)).sum()
@@ -341,7 +351,7 @@ def _part_goals(s, gi, pi, p, batch, fb, tag):
             tac = "intros W f V g; cbv [simple_clip_call]; " + nf + fin
             out.append((base + suffix, stmt, tac, {"layer": "call" if suffix == "_C" else "gradval", "site": site}))
     else:  # cfit family
-        e = p.errv if m == "simple_cfit" else p.e
+        e = p.e
         isig = float(np.dot(V, np.array(p.eg) * np.array(g))); ibg = float(np.dot(V, p.bm))
         pr = (1 - fb) * np.array(e) * np.array(f) / isig + fb * np.array(p.b) / ibg
         lam = isig / (1 - fb)
@@ -477,7 +487,7 @@ def total_goal(cid, parts, cs, y, site):
 
 # ----------------------------------------------------------------------------- run one scenario
 
-def second_samples(cfg, rnd, s):
+def second_samples(cfg, rnd, s, sizes=None):
     """a DIFFERENT set of samples for the same ConfigLoader (its Model objects are lru_cached and therefore shared by
     every FCN built from it): other events, other sizes, other data / MC weights, non-constant bg_value / eff_value"""
     import tensorflow as tf
@@ -491,10 +501,12 @@ def second_samples(cfg, rnd, s):
         return cfg.data.cal_angle([np.array(i) for i in p])
 
     data2, phsp2, bg2, raws2, nmax = [], [], [], [], 0
-    for gi in range(s.ngroup):
+    for gi in range(s.ngroup + (1 if s.opts.get("regroup") else 0)):
         nd = R * rnd.randrange(3, 7) if R > 1 else rnd.randrange(8, 15)
         nb = R * rnd.randrange(1, 3) if R > 1 else rnd.randrange(3, 6)
         nm = rnd.randrange(10, 19)
+        if sizes:
+            nd, nb, nm = sizes
         seed = rnd.randrange(1, 10 ** 6)
         d, m = mk(nd, seed), mk(nm, seed + 1)
         ev = gen_weights(rnd, nd // R, "mixed")
@@ -522,11 +534,8 @@ def second_samples(cfg, rnd, s):
     return (data2, phsp2, None if s.bgkind == "none" else bg2, None), raws2, nmax
 
 
-def run_scenario(ctx, rnd, s, npoints, all_batches):
-    from tf_pwa.config_loader import ConfigLoader
-    cases, records = [], []
-    cfg = ConfigLoader(s.cfg)
-    amp = cfg.get_amplitude()
+def loader_inputs(cfg, s):
+    """the samples of the config files as get_fcn(all_data=...) input + the raw weights (data, bg, n_bg, MC) per data set"""
     data, phsp, bg, inmc = cfg.get_all_data()
     raws = []
     bg_in = []
@@ -541,7 +550,26 @@ def run_scenario(ctx, rnd, s, npoints, all_batches):
             raws.append((ws, [-s.wb] * s.nb[gi], s.nb[gi], v))
         else:
             bg_in.append(bg[gi]); raws.append((ws, arr(bg[gi]["weight"]), s.nb[gi], v))
-    all_data = (data, phsp, None if s.bgkind == "none" else bg_in, None)
+    return (data, phsp, None if s.bgkind == "none" else bg_in, None), raws
+
+
+def record_of(s, gi, batch, x, p, fb, pi, kind):
+    extra = {}
+    if s.model in CFIT_LIKE:
+        extra = {"eff_data": p.e, "bg_value_data": p.b, "eff_mc": p.eg, "bg_value_mc": p.bm, "fcn_weight": p.W, "fcn_mc_weight": p.V}
+    return {**extra, "scenario": s.sid, "model": s.model, "group": gi, "batch": batch, "params": x,
+            "weights": p.ws, "bg_weights": p.bgw, "mc_weights": p.v, "density_data": p.f, "density_mc": p.g,
+            "nll_call": p.call, "nll_gradval": p.gradval, "documented": float(doc_value(s.model, p, fb)), "bg_frac": fb,
+            "clip": s.clip, "point": pi, "phase": kind}
+
+
+def run_scenario(ctx, rnd, s, npoints, all_batches):
+    from tf_pwa.config_loader import ConfigLoader
+    cases, records = [], []
+    cfg = ConfigLoader(s.cfg)
+    amp = cfg.get_amplitude()
+    all_data, raws = loader_inputs(cfg, s)
+    data = all_data[0]
     ntot = [s.nd[gi] + s.nb[gi] for gi in range(s.ngroup)]
     N = max(ntot)
     batches = [1, 3, N - 1, N, N + 5]
@@ -560,7 +588,7 @@ def run_scenario(ctx, rnd, s, npoints, all_batches):
     phases = [("point", pi) for pi in range(npoints)]
     if s.gc and not s.clip:
         phases.append(("fixed", npoints))
-    if not s.clip and (ctx.tier != "quick" or s.ngroup == 1 or s.model in ("cfit", "cfit_cached")):
+    if not s.clip and (ctx.tier != "quick" or s.ngroup == 1 or s.model in ("cfit", "cfit_cached") or s.opts.get("regroup")):
         phases.append(("second", npoints + 1))
     fixed = []
     for kind, pi in phases:
@@ -577,6 +605,8 @@ def run_scenario(ctx, rnd, s, npoints, all_batches):
             all_data, raws, N2 = second_samples(cfg, rnd, s)
             b0 = rnd.choice([3, N2 - 1, N2, N2 + 5] if s.R == 1 else [s.R, 2 * s.R, N2, N2 + 2 * s.R])
             ctx.count("phase:second_sample_same_ConfigLoader")
+            if s.opts.get("regroup"):
+                ctx.count("phase:second_sample_one_more_data_set")
         x = random_point(rnd, cfg.vm, scale)
         if s.model in ("cached_int", "cached_amp"):
             x = {k: v for k, v in x.items() if not (k.endswith("_mass") or k.endswith("_width"))}
@@ -589,6 +619,24 @@ def run_scenario(ctx, rnd, s, npoints, all_batches):
             fcn = cfg.get_fcn(all_data=all_data, batch=batch)
             keep.append(fcn)  # the cached models key their caches by id(batch list): keep every FCN alive so ids are never reused
             fcns = fcn.fcns if hasattr(fcn, "fcns") else [fcn]
+            nsets = len(all_data[0])
+            if len(fcns) != nsets:  # every data set handed to get_fcn must enter the NLL (all groupings into simultaneous sets)
+                stale = kind == "second" and s.opts.get("regroup")
+                ctx.fails.append(dict(
+                    layer="total", case="b%d_s%d_p%d_N" % (batch, s.sid, pi),
+                    detail="get_fcn(all_data with %d data sets) returned %s over %d set(s): %d data set(s) silently dropped [model=%s, phase=%s]"
+                           % (nsets, type(fcn).__name__, len(fcns), nsets - len(fcns), s.model, kind),
+                    site="ConfigLoader.get_fcn / _get_model (one model per data set)",
+                    fingerprint="model_list:" + ("stale_after_regrouping" if stale else "shorter_than_data_sets"),
+                    failing_input={"config": s.cfg, "batch": batch, "phase": kind, "params": x, "n_data_sets": nsets,
+                                   "n_data_sets_of_the_previous_get_fcn_on_this_ConfigLoader": s.ngroup if kind == "second" else None,
+                                   "n_fcn_in_returned_object": len(fcns), "events_per_set(data+bg)": [len(r[0]) + r[2] for r in raws],
+                                   "reported_nll": float(fcn(x)),
+                                   "nll_of_each_set_alone(get_fcn on one set)": [
+                                       float(cfg.get_fcn(all_data=tuple(None if a is None else [a[gi]] for a in all_data), batch=batch)(x))
+                                       for gi in range(nsets)] if not s.gc else "not evaluated (Gaussian constraints configured)"}))
+                ctx.count("model:" + s.model)
+                break
             parts = []
             if bi == 0:
                 ref_grad = {}
@@ -616,7 +664,6 @@ def run_scenario(ctx, rnd, s, npoints, all_batches):
                     c[3].update({"model": s.model, "batch": batch, "group": gi, "scenario": s.sid, "point": pi, "phase": kind})
                 cases += gl
                 ctx.evaluations += 2
-                dv = doc_value(s.model, p, fb)
                 if p.grad_error is not None:
                     ragged = s.model == "cfit_extended" and "Shapes of all inputs must match" in p.grad_error
                     ctx.fails.append(dict(layer="implementation", case="b%d_s%d_g%d_p%d_G" % (batch, s.sid, gi, pi),
@@ -624,13 +671,7 @@ def run_scenario(ctx, rnd, s, npoints, all_batches):
                                           site="ModelCfitExtended.nll_grad_batch" if ragged else "get_nll_grad(%s)" % s.model,
                                           fingerprint="cfit_extended:ragged_batch_sw" if ragged else s.model + ":raise",
                                           failing_input={"config": s.cfg, "batch": batch, "n_events": len(p.W), "params": x, "error": p.grad_error}))
-                extra = {}
-                if s.model in CFIT_LIKE:
-                    extra = {"eff_data": p.e, "bg_value_data": p.b, "eff_mc": p.eg, "bg_value_mc": p.bm, "fcn_weight": p.W, "fcn_mc_weight": p.V}
-                records.append({**extra, "scenario": s.sid, "model": s.model, "group": gi, "batch": batch, "params": x,
-                                "weights": p.ws, "bg_weights": p.bgw, "mc_weights": p.v, "density_data": p.f, "density_mc": p.g,
-                                "nll_call": p.call, "nll_gradval": p.gradval, "documented": float(dv), "bg_frac": fb,
-                                "clip": s.clip, "point": pi, "phase": kind})
+                records.append(record_of(s, gi, batch, x, p, fb, pi, kind))
             ctx.count("model:" + s.model)
             if kind != "second":
                 ctx.count("batch:" + (("1" if batch == 1 else "3" if batch == 3 else "N-1" if batch == N - 1 else "N" if batch == N else "N+5") if s.R == 1 else
@@ -661,6 +702,123 @@ def run_scenario(ctx, rnd, s, npoints, all_batches):
     return cases, records
 
 
+# ----------------------------------------------------------------------------- further scenario families
+
+def run_multiconfig(ctx, rnd, sid):
+    """MultiConfig = simultaneous fit of several configurations sharing one VarsManager: get_fcn() is the FIRST call made
+    on the object (as in a fit script); its NLL must be the sum of the parts + the Gaussian terms of every configured constraint"""
+    import copy
+    from tf_pwa.config_loader import MultiConfig
+    ss = [make_scenario(ctx, rnd, sid, "default", 1, True), make_scenario(ctx, rnd, sid + 500, "default", 1, True)]
+    for s in ss[1:]:  # same decay model and constraints in every configuration
+        s.cfg["particle"] = copy.deepcopy(ss[0].cfg["particle"])
+        s.cfg["constrains"] = copy.deepcopy(ss[0].cfg["constrains"])
+        s.gc = ss[0].gc
+    for s in ss:
+        if s.bgkind == "noweight":  # the samples are read by the configurations themselves: bg carries -bg_weight
+            s.bgkind = "const"
+    batch = rnd.choice([3, 7, 40])
+    mc = MultiConfig([s.cfg for s in ss], total_same=True)
+    fcn = mc.get_fcn(batch=batch)
+    x = random_point(rnd, mc.vm)
+    cases, records, parts = [], [], []
+    for i, (s, fi) in enumerate(zip(ss, fcn.fcns)):
+        _, raws = loader_inputs(mc.configs[i], s)
+        p = capture_part("default", fi, mc.configs[i].get_amplitude(), raws[0], x)
+        parts.append(p)
+        gl = part_goals(s, 0, 0, p, batch, None, "mc%d" % batch)
+        for c in gl:
+            c[3].update({"model": "default", "batch": batch, "group": 0, "scenario": s.sid, "point": 0, "phase": "multiconfig"})
+        cases += gl
+        records.append(record_of(s, 0, batch, x, p, None, 0, "multiconfig"))
+        ctx.evaluations += 2
+    cs = [(float(mc.vm.get(k)), float(mu), float(sg)) for k, (mu, sg) in ss[0].gc.items()]
+    tot_call = float(fcn(x)); tot_grad = float(fcn.nll_grad(x)[0])
+    ctx.evaluations += 2
+    gt = sum((t - mu) ** 2 / sg ** 2 / 2 for t, mu, sg in cs)
+    cid = "mc%d_s%d_p0" % (batch, sid)
+    for c, pv, yv in ((total_goal(cid + "_TC", [p.call for p in parts], cs, tot_call, "MultiConfig.get_fcn -> CombineFCN.__call__"), [p.call for p in parts], tot_call),
+                      (total_goal(cid + "_TG", [p.gradval for p in parts], cs, tot_grad, "MultiConfig.get_fcn -> CombineFCN.nll_grad"), [p.gradval for p in parts], tot_grad)):
+        c[3].update({"model": "multiconfig", "batch": batch, "scenario": sid, "point": 0, "phase": "multiconfig", "parts": pv,
+                     "constraints(theta,mean,sigma)": dict(zip(ss[0].gc.keys(), cs)), "reported": yv,
+                     "expected(sum of parts + Gaussian terms of ALL configured constraints)": sum(pv) + gt,
+                     "params": x, "config": [s.cfg for s in ss], "call_order": "MultiConfig(configs, total_same=True).get_fcn(batch) first"})
+        cases.append(c)
+    ctx.count("model:multiconfig"); ctx.count("groups:multiconfig_2"); ctx.count("gauss:%d" % len(cs))
+    ctx.distinct.add((sid, 0, batch))
+    return cases, records
+
+
+def run_idreuse(ctx, rnd, sid, model, iters):
+    """toy loop: FCNs for two alternating same-size sample sets are built from ONE ConfigLoader, each FCN is dropped
+    (del + gc.collect) before the next one is built; the value returned alongside the gradient must keep following the
+    sample at hand (stand-alone value = reference; the two agree by C06_value_alongside_equals_standalone)"""
+    import gc
+    from tf_pwa.config_loader import ConfigLoader
+    s = make_scenario(ctx, rnd, sid, model, 1, False)
+    cfg = ConfigLoader(s.cfg)
+    sizes = (rnd.randrange(8, 15), rnd.randrange(3, 6), 0)
+    sizes = (sizes[0], sizes[1], sizes[0] + (sizes[1] if s.bgkind != "none" else 0))  # as many MC as data + bg events: any stale entry fits
+    sets = [second_samples(cfg, rnd, s, sizes=sizes)[0] for _ in range(2)]
+    x = random_point(rnd, cfg.vm)
+    x = {k: v for k, v in x.items() if not (k.endswith("_mass") or k.endswith("_width"))}
+    for it in range(iters):
+        fcn = cfg.get_fcn(all_data=sets[it % 2], batch=sizes[0] + sizes[1] + 5)
+        y = float(fcn.get_nll(x))
+        try:
+            g = float(fcn.get_nll_grad(x)[0])
+        except Exception as e:
+            g = "raised %s: %s" % (type(e).__name__, str(e)[-200:])
+        ctx.evaluations += 2
+        if isinstance(g, str) or not abs(g - y) <= 1e-8 * (abs(y) + 1.0):
+            ctx.fails.append(dict(
+                layer="gradval", case="idreuse_s%d_it%d" % (sid, it),
+                detail="FCN number %d built from one ConfigLoader (the earlier ones deleted and collected): nll_grad()[0] = %r but __call__ = %r [model=%s]"
+                       % (it + 1, g, y, model),
+                site="id()-keyed caches of the cached likelihood models (opt_int.py, cfit.py Model_cfit_cached)",
+                fingerprint="cached:stale_id_keyed_cache",
+                failing_input={"config": s.cfg, "model": model, "params": x, "iteration": it, "sizes(data,bg,mc)": sizes,
+                               "loop": "sets A,B of equal sizes alternate; fcn = cfg.get_fcn(all_data=set); fcn.get_nll_grad(x); del fcn; gc.collect()",
+                               "nll_call": y, "nll_gradval": g}))
+            break
+        del fcn
+        gc.collect()
+    ctx.count("phase:fcn_rebuilt_after_gc[%s]" % model, it + 1)
+    ctx.count("model:" + model)
+    ctx.distinct.add((sid, 0, "idreuse"))
+    return [], []
+
+
+def run_open_rescale_below_clip(ctx, sid):
+    """OPEN finding (fixed reproducer, independent of the run's seed): the non-extended NLL is not invariant under a common
+    rescaling of all amplitudes once clip_log acts on the unnormalised density (the regular stream stays above the threshold:
+    hypothesis eps < f, eps < c f of C06_nll_scale_invariant; Coq witness C06_nll_scale_below_clip_refuted)"""
+    from tf_pwa.config_loader import ConfigLoader
+    rnd = random.Random(60605)
+    s = make_scenario(ctx, rnd, sid, "default", 1, False)
+    cfg = ConfigLoader(s.cfg)
+    amp = cfg.get_amplitude()
+    fcn = cfg.get_fcn(batch=7)
+    x = random_point(rnd, cfg.vm)
+    y0 = float(fcn(x)); g0 = float(fcn.nll_grad(x)[0])
+    fmax = float(np.max(np.array(amp(fcn.data))))
+    c = math.sqrt(1e-7 / fmax)  # every data density becomes <= 1e-7 < eps_clip = 1e-6
+    x2 = {k: (v * c if k.endswith("_total_0r") else v) for k, v in x.items()}
+    y1 = float(fcn(x2)); g1 = float(fcn.nll_grad(x2)[0])
+    ctx.evaluations += 4
+    ctx.count("open_finding_reproducer:rescaling_below_clip")
+    if not (abs(y1 - y0) <= 1e-8 * (abs(y0) + 1) and abs(g1 - g0) <= 1e-8 * (abs(g0) + 1)):
+        ctx.fails.append(dict(
+            layer="rescaling", case="open_rescale_below_clip",
+            detail="common rescaling of all amplitudes by %.3e (all data densities below 1e-6): NLL %r -> %r, value of nll_grad %r -> %r [model=default, not extended]"
+                   % (c, y0, y1, g0, g1),
+            site="clip_log applied to the unnormalised density (model.py BaseModel.nll / nll_grad_batch)",
+            fingerprint="rescaling:clip_log_unnormalised",
+            failing_input={"config": s.cfg, "batch": 7, "params": x, "amplitude_scale": c, "nll": y0, "nll_rescaled": y1,
+                           "nll_gradval": g0, "nll_gradval_rescaled": g1, "max_density_after_rescaling": fmax * c * c}))
+    return [], []
+
+
 def plan(ctx, rnd):
     sc = []
     sid = 0
@@ -681,9 +839,21 @@ def plan(ctx, rnd):
         for m, ng, R in ((("default", 1, 2), ("cfit", 1, 3), ("extended", 1, 3), ("cfit", 2, 2)) if quick else
                          (("default", 1, 2), ("default", 2, 3), ("extended", 1, 3), ("extended", 1, 2), ("cfit", 1, 3), ("cfit", 2, 2), ("cfit", 1, 2))):
             sc.append((sid, m, ng, sid % 2 == 0, False, R)); sid += 1
+        # one bg_frac for all data sets (scalar) / one more data set handed to the same ConfigLoader in the second phase
+        for m, ng, o in ((("cfit", 2, {"scalar_bg_frac": True, "regroup": True}), ("default", 1, {"regroup": True})) if quick else
+                         (("cfit", 2, {"scalar_bg_frac": True}), ("cfit", 2, {"regroup": True}), ("cfit_cached", 2, {"scalar_bg_frac": True}),
+                          ("cfit_extended", 3, {"scalar_bg_frac": True, "regroup": True}), ("simple_cfit", 2, {"regroup": True}),
+                          ("default", 1, {"regroup": True}), ("extended", 2, {"regroup": True}), ("cached_amp", 1, {"regroup": True}),
+                          ("cached_int", 2, {"regroup": True}), ("simple", 1, {"regroup": True}))):
+            sc.append((sid, m, ng, sid % 2 == 0, False, 1, o)); sid += 1
+        sc.append((sid, "multiconfig", 2, True, False)); sid += 1
+        for m in (("cached_amp",) if quick else ("cached_amp", "cfit_cached", "cached_int")):
+            sc.append((sid, "idreuse:" + m, 1, False, False)); sid += 1
+        if rep == 0:
+            sc.append((sid, "open:rescale_below_clip", 1, False, False)); sid += 1
     only = os.environ.get("VERIF_ONLY")  # debugging aid: restrict to some likelihood models
     if only:
-        sc = [x for x in sc if x[1] in only.split(",")]
+        sc = [x for x in sc if x[1].split(":")[0] in only.split(",") or x[1] in only.split(",")]
     return sc
 
 
@@ -760,13 +930,21 @@ def _worker(args):
         pass
     sid, m, ngroup, gauss, clip = item[:5]
     R = item[5] if len(item) > 5 else 1
+    opts = item[6] if len(item) > 6 else None
     acc = Acc(d, tier)
     srnd = random.Random(sseed)
     t0 = time.time()
     try:
         with contextlib.redirect_stdout(io.StringIO()):
-            s = make_scenario(acc, srnd, sid, m, ngroup, gauss, clip, R)
-            cs, rs = run_scenario(acc, srnd, s, 1 if tier == "quick" else 2, all_batches=((ngroup == 1 and m not in ("cached_int", "cached_amp", "cfit_cached")) or tier != "quick"))
+            if m == "multiconfig":
+                cs, rs = run_multiconfig(acc, srnd, sid)
+            elif m.startswith("idreuse:"):
+                cs, rs = run_idreuse(acc, srnd, sid, m.split(":")[1], 40 if tier == "quick" else 80)
+            elif m == "open:rescale_below_clip":
+                cs, rs = run_open_rescale_below_clip(acc, sid)
+            else:
+                s = make_scenario(acc, srnd, sid, m, ngroup, gauss, clip, R, opts)
+                cs, rs = run_scenario(acc, srnd, s, 1 if tier == "quick" else 2, all_batches=((ngroup == 1 and m not in ("cached_int", "cached_amp", "cfit_cached")) or tier != "quick"))
         return {"item": item, "cases": cs, "records": rs, "dist": acc.dist, "distinct": acc.distinct, "evaluations": acc.evaluations,
                 "error": None, "dt": time.time() - t0, "fails": acc.fails}
     except Exception:
